@@ -37,6 +37,7 @@ type Node struct {
 	Content     []byte  // value octets of a primitive element (or of a constructed one kept opaque)
 	Children    []*Node // elements of a constructed element (when parsed recursively)
 	Opaque      bool    // constructed, but Content is authoritative (children not parsed / not to be re-encoded)
+	Trailing    []byte  // bytes after the last parsable child of a constructed element (tolerant parse only)
 	Raw         []byte  // the original encoding (header + content) when the node came from Parse
 	hdr         int     // length of the identifier and length octets within Raw
 }
@@ -77,7 +78,7 @@ func (n *Node) Value() []byte {
 	for _, c := range n.Children {
 		b = append(b, c.Encode()...)
 	}
-	return b
+	return append(b, n.Trailing...)
 }
 
 // EncodeLen is the minimal DER length encoding.
@@ -130,6 +131,9 @@ func (n *Node) Clone() *Node {
 		return nil
 	}
 	c := &Node{Class: n.Class, Constructed: n.Constructed, Tag: n.Tag, Opaque: n.Opaque}
+	if n.Trailing != nil {
+		c.Trailing = append([]byte{}, n.Trailing...)
+	}
 	if n.Content != nil {
 		c.Content = append([]byte{}, n.Content...)
 	}
@@ -221,10 +225,8 @@ func parse(b []byte, o Options, depth int) (*Node, []byte, error) {
 				if o.Strict {
 					return nil, nil, err
 				}
-				// keep unparsable constructed content opaque
-				n.Children = nil
-				n.Opaque = true
-				n.Content = content
+				// tolerant: keep the children that did parse, the rest is carried along as trailing bytes
+				n.Trailing = rest
 				return n, b[i+l:], nil
 			}
 			n.Children = append(n.Children, c)
